@@ -20,10 +20,15 @@ META = {
     'technique': 'breadth-first operation-sequence search with state deduplication vs set / ordered-dict models',
     'text': 'SortedSet: two sets a, b over a 3-element domain (ints; tuples; lists = unhashable; dicts = unhashable and '
             'only ==-comparable; SortedSets/frozensets = partially ordered, as produced for set<frozen<set>> columns); '
-            'alphabet add/remove/pop/clear/|=/&=/-=/^=/update on a, add/clear on b, and the queries in, len, iter, '
-            'reversed, index, union/intersection/difference/symmetric_difference and operators (also reflected with '
-            'builtin sets), <=,<,>=,>,==,!=, issubset/issuperset/isdisjoint, copy; all sequences to depth 4 (quick) / 6 '
-            '(thorough) modulo state equality.  OrderedMap and OrderedMapSerializedKey (int, text, frozen list<int>, frozen '
+            'alphabet add/remove/pop/clear/|=/&=/-=/^=/update on a (operand b, a builtin set, a itself; update also with a list / '
+            'b / an iterator), add/clear on b, and the queries in, len, iter, reversed, index, '
+            'union/intersection/difference/symmetric_difference and operators (also reflected with builtin sets, and with a '
+            'itself as the operand), <=,<,>=,>,==,!=, issubset/issuperset/isdisjoint (operand SortedSet, set, list, tuple), copy; '
+            'all sequences to depth 4 (quick) / 6 (thorough) modulo state equality.  In every state the n-ary methods '
+            'union/intersection/difference are called with every argument tuple of length 0..3: each argument any of the 8 '
+            'subsets of the domain, all built as SortedSet, list, tuple (hashable domains: also set, frozenset), or the live a / b '
+            'in any position (arity 3 with b: the other two as lists); tuples that do not read b are run once per distinct state '
+            'of a.  OrderedMap and OrderedMapSerializedKey (int, text, frozen list<int>, frozen '
             'map<int,int> keys incl. an alias key with the same encoding; protocol 4, thorough also 3 and 5): set/get/del/'
             'popitem/contains/len/iter/keys/values/items/get/==/construction.  Total-order domains are also held to '
             'ascending iteration; the other domains only to set semantics.',
@@ -74,10 +79,11 @@ NARY = ('union', 'intersection', 'difference')      # the methods that take *oth
 MASKS = range(8)                                    # every subset of the 3-element domain, as a bit mask
 
 
-def ss_arg_ops(w, all_wrappers_at_3):
+def ss_arg_ops(w):
     """The argument-tuple family: (ops that read only a, ops that also read b).
     op = ('nary:<method>', (wrapper, args)); an arg is 'a', 'b' (the live objects) or a subset mask, built fresh as <wrapper>.
-    op = ('seq:<predicate>', (wrapper, mask)) for the one-operand predicates with a plain sequence."""
+    op = ('seq:<predicate>', (wrapper, mask)) for the one-operand predicates with a plain sequence.
+    Every tuple of 0..3 arguments (with b: b in every position, the others as lists)."""
     W = w.wrappers()
     a_only, with_b = [], []
     for m in NARY:
@@ -89,7 +95,7 @@ def ss_arg_ops(w, all_wrappers_at_3):
                 a_only += [(nm, (wr, (x,))), (nm, (wr, (x, 'a'))), (nm, (wr, ('a', x)))]
                 with_b += [(nm, (wr, (x, 'b'))), (nm, (wr, ('b', x)))]
                 a_only += [(nm, (wr, (x, y))) for y in MASKS]
-        for wr in (W if all_wrappers_at_3 else ('list', 'sortedset')):
+        for wr in W:
             a_only += [(nm, (wr, (x, y, z))) for x in MASKS for y in MASKS for z in MASKS]
         for x in MASKS:
             for y in MASKS:
@@ -683,15 +689,21 @@ def explore(spec):
     a_only, with_b, seen_a = [], [], set()
     if spec[0] == 'sortedset':
         mut, qry = SS_MUT, SS_QUERY
-        a_only, with_b = ss_arg_ops(w0, depth > 4)
+        a_only, with_b = ss_arg_ops(w0)
     else:
         mut, qry = om_ops(w0)
 
     def arg_family(path):
         if not with_b:
             return
+        w = build(spec, path)[0]
+        if w.order == 'partial-order' and w.observe():
+            # a state in which the object has already left its model (the known misplacement of set-valued elements):
+            # every further call differs for that reason; the family is applied to the states that still agree
+            part.count('argument_family_skipped_in_diverged_states')
+            return
         step_queries(part, spec, path, with_b, 'argument_tuples_with_b')
-        ak = build(spec, path)[0].akey()
+        ak = w.akey()
         if ak not in seen_a:            # these read a (and fresh operands) only: once per distinct state of a
             seen_a.add(ak)
             part.count('states_of_a')
@@ -768,6 +780,11 @@ def run(ctx):
     ctx.cov['harnesses_at_fixpoint_within_depth'] = fix
     ctx.cov['rule'] = ('%d harnesses (6 SortedSet element domains, OrderedMap x 5 key kinds, OrderedMapSerializedKey x 4 key kinds x protocols); '
                        'breadth-first to depth %d over mutators, every query in every state; state = (model, full internal state); '
+                       'SortedSet: plus every argument tuple (0..3 arguments, each a subset of the domain in every container shape, or '
+                       'a / b) of union/intersection/difference in every state (counters argument_tuples_*: those reading b in every state, '
+                       'the others once per distinct (model, internal state) of a = states_of_a); in the two partially ordered '
+                       'domains the argument family is left out in states where a or b has already diverged from its model '
+                       '(known finding; counter argument_family_skipped_in_diverged_states); '
                        'non-trivial = state first reached by a path of >= 2 mutators' % (len(sp), sp[0][-1]))
     ctx.cov['exhaustive'] = True
     ctx.assume('a set may hand out any member on pop(); index access is only compared on totally ordered domains')
@@ -778,6 +795,8 @@ def run(ctx):
                'equality and only key values whose pickles are canonical are generated (no containers of equal-but-distinct strings)')
     ctx.assume('OrderedMap == OrderedMap with the same pairs in another order is not defined by the statement and not compared')
     ctx.assume('mixed non-comparable elements (int with None) are outside the statement and not generated')
+    ctx.assume('operands of the set methods are sets or sequences without repeated elements (SortedSet, set, frozenset, list, tuple); '
+               'one-shot iterators are only handed to update() and the constructor; symmetric_difference / ^ only get set-like operands')
     ctx.assume('unorderable elements (dicts/maps, ==-only) are outside the statement ("elements of any single comparable type"): '
                'for that domain ==/!= between two SortedSets (which depends on insertion order) is not compared; membership, '
                'add/remove/pop, the set operations and subset comparisons still are')
